@@ -83,7 +83,21 @@ def policy_guard(r, F):
     wp = f.calls_to(r"with_pipe$")
     if not wp:
         raise AnchorMissing("builder: Cache::with_pipe call not found")
-    piped = f.var_locals("piped")
+    # the decision variable: the bool local whose switch guards with_pipe and which is only ever assigned constants
+    piped = []
+    for sw in mir.find_switches(f):
+        d = sw.term.discr
+        if d.place is None:
+            continue
+        tt, ft = tables.bool_switch_targets(sw)
+        if tt is None or not all(f.edge_guards(sw.idx, tt, w.idx) for w in wp):
+            continue
+        for l in backslice(f, d, "prov").locals:
+            ds = [x for x in f.defs().get(l, []) if x[2] == "assign" and not f.blocks[x[0]].cleanup]
+            if len(ds) >= 2 and all(x[3].rv.k == "use" and x[3].rv.ops[0].is_const() for x in ds):
+                piped.append(l)
+    if not piped:
+        raise AnchorMissing("builder: the boolean deciding whether the eviction pipe is installed was not found")
     sets = [(b.idx, s) for b in f.blocks if not b.cleanup for s in b.stmts if s.k == "assign" and s.place.is_local() and s.place.local in piped
             and s.rv.k == "use" and s.rv.ops[0].is_const()]
     trues = [bi for bi, s in sets if s.rv.ops[0].const_val() == 1]
